@@ -18,9 +18,9 @@ Definition id_outside (V' : list string) (A : smat) : Prop :=
   forall x y, (~ In x V' \/ ~ In y V') -> A x y = sid x y.
 
 (* S is the reflexive-transitive closure of A on V: least solution of X = 1 + X.A *)
-Definition is_star (V : list string) (A S : smat) : Prop :=
-  eqV V S (sadd sid (smul V S A)) /\
-  (forall X, eqV V X (sadd sid (smul V X A)) -> leV V S X).
+Definition is_star (V : list string) (A St : smat) : Prop :=
+  eqV V St (sadd sid (smul V St A)) /\
+  (forall X, eqV V X (sadd sid (smul V X A)) -> leV V St X).
 
 Definition rel_nfz (r : rel) : Prop := Forall (fun row => Forall NFz row) (rmat r).
 
@@ -58,22 +58,22 @@ Definition smul_restrict_stmt : Prop :=
       smul V A B x y = if mem_strb x V' && mem_strb y V' then smul V' A B x y else sid x y.
 
 Definition sstar_sound_stmt : Prop :=
-  forall V A S, NoDup V -> finite_on V A -> sstar V A = Some S -> is_star V A S /\ finite_on V S.
+  forall V A St, NoDup V -> finite_on V A -> sstar V A = Some St -> is_star V A St /\ finite_on V St.
 
 Definition is_star_unique_stmt : Prop :=
-  forall V A S S', is_star V A S -> is_star V A S' -> eqV V S S'.
+  forall V A St St', is_star V A St -> is_star V A St' -> eqV V St St'.
 
 Definition sstar_ext_stmt : Prop :=
   forall V A A', eqV V A A' ->
     match sstar V A, sstar V A' with
-    | Some S, Some S' => eqV V S S'
+    | Some St, Some St' => eqV V St St'
     | None, None => True
     | _, _ => False
     end.
 
 (* the iteration reaches its fixed point within the fuel (a monotone chain in a lattice of height 4|V|^2) *)
 Definition sstar_total_stmt : Prop :=
-  forall V A, NoDup V -> finite_on V A -> exists S, sstar V A = Some S.
+  forall V A, NoDup V -> finite_on V A -> exists St, sstar V A = Some St.
 
 (* ---------------- P2: Relation.fixpoint ---------------- *)
 
